@@ -33,7 +33,7 @@ func init() {
 func htmlImageList(n *html.Node) []string {
 	var out []string
 	walk(n, func(x *html.Node) bool {
-		if x.Type == html.ElementNode && (x.Data == "img" || x.Data == "source") {
+		if x.Type == html.ElementNode && (x.Data == "img" || (x.Data == "source" && x.Parent != nil && x.Parent.Data == "picture")) {
 			if s := attr(x, "src"); s != "" {
 				out = append(out, s)
 			}
@@ -42,6 +42,42 @@ func htmlImageList(n *html.Node) []string {
 		return true
 	})
 	return out
+}
+
+// inlineNoBreak lists the inline formatting elements whose boundaries do not
+// separate words for a reader of the rendered HTML; every other element does
+// (block-level elements, table parts, media, foreign content, unknown tags).
+var inlineNoBreak = map[string]bool{"a": true, "b": true, "i": true, "em": true, "strong": true, "span": true, "u": true, "code": true, "font": true, "sub": true, "sup": true,
+	"small": true, "abbr": true, "cite": true, "q": true, "s": true, "mark": true, "time": true, "var": true, "kbd": true, "label": true, "tt": true, "big": true, "del": true, "ins": true, "wbr": true}
+
+// renderedWords returns the whitespace-separated words of the visible text of
+// n as a browser would show them: text nodes are joined directly, block-level
+// boundaries and <br> separate words.
+func renderedWords(n *html.Node) []string {
+	var sb strings.Builder
+	var rec func(x *html.Node)
+	rec = func(x *html.Node) {
+		switch x.Type {
+		case html.TextNode:
+			sb.WriteString(x.Data)
+			return
+		case html.ElementNode:
+			if isPlaceholder(x) || notRendered(x) {
+				return
+			}
+			if !inlineNoBreak[x.Data] {
+				sb.WriteString(" ")
+			}
+		}
+		for ch := x.FirstChild; ch != nil; ch = ch.NextSibling {
+			rec(ch)
+		}
+		if x.Type == html.ElementNode && !inlineNoBreak[x.Data] {
+			sb.WriteString(" ")
+		}
+	}
+	rec(n)
+	return strings.Fields(sb.String())
 }
 
 func asciiWordCount(text string) int {
@@ -109,8 +145,33 @@ func runC09(c *Ctx, idx int) {
 			ar.witness(map[string]any{"position": i, "text_token": at(tt), "html_token": at(ht)}))
 		return
 	}
+	// the same at the level of whole words: no two words glued, none split
+	// (generated pages never let a word span an inline element boundary)
+	tw, hw := strings.Fields(ar.Res.Text), renderedWords(ar.Res.Node)
+	if strings.Join(tw, " ") != strings.Join(hw, " ") {
+		i := 0
+		for i < len(tw) && i < len(hw) && tw[i] == hw[i] {
+			i++
+		}
+		at := func(s []string) string {
+			if i < len(s) {
+				return s[i]
+			}
+			return "<end>"
+		}
+		kind := "words-differ"
+		if strings.HasPrefix(at(hw), at(tw)) && at(hw) != at(tw) {
+			kind = "words-glued-in-html"
+		} else if strings.HasPrefix(at(tw), at(hw)) && at(hw) != at(tw) {
+			kind = "words-glued-in-text"
+		}
+		c.Violation(kind, fmt.Sprintf("word sequences of Text and of the rendered HTML differ at word %d: Text has %q, HTML has %q", i, at(tw), at(hw)),
+			ar.witness(map[string]any{"position": i, "text_word": at(tw), "html_word": at(hw)}))
+		return
+	}
 	c.Inc("text_html_agree_docs")
 	c.Count("tokens_compared", int64(len(tt)))
+	c.Count("words_compared", int64(len(tw)))
 	// images
 	list := htmlImageList(ar.Res.Node)
 	j := 0
